@@ -350,7 +350,12 @@ class ADWIN(StreamingDetector):
             n_curr + self._window_size
         )
         curr_bucket_row.remove_buckets(1)
-        if curr_bucket_row.bucket_count == 0:
+        # drop every exhausted row at the tail: a row emptied earlier by a merge
+        # (max_buckets=1) must not be mistaken for the oldest bucket later on
+        while (
+            self._bucket_row_list.tail is not None
+            and self._bucket_row_list.tail.bucket_count == 0
+        ):
             self._bucket_row_list.remove_tail()
         return n_curr
 
